@@ -19,6 +19,10 @@ struct CTrig(u32);
 struct SEv(u32);
 #[derive(Event, Serialize, Deserialize, Clone, Debug)]
 struct STrig(u32);
+#[derive(Event, Serialize, Deserialize, Clone, Debug)]
+struct SInd(u32);
+#[derive(Event, Serialize, Deserialize, Clone, Debug)]
+struct SIndT(u32);
 
 /// (kind, seq, sender, trigger target)
 #[derive(Resource, Default)]
@@ -59,6 +63,18 @@ fn mk(dedicated: bool, auth: AuthMethod) -> App {
         .add_client_trigger::<CTrig>(Channel::Ordered)
         .add_server_event::<SEv>(Channel::Ordered)
         .add_server_trigger::<STrig>(Channel::Ordered)
+        .add_server_event::<SInd>(Channel::Ordered)
+        .make_event_independent::<SInd>()
+        .add_server_trigger::<SIndT>(Channel::Ordered)
+        .make_trigger_independent::<SIndT>()
+        .add_systems(Last, |mut r: EventReader<SInd>, mut l: ResMut<Log>| {
+            for e in r.read() {
+                l.0.push(("SInd", e.0, None, None));
+            }
+        })
+        .add_observer(|t: Trigger<SIndT>, mut l: ResMut<Log>| {
+            l.0.push(("SIndT", t.event().0, None, Some(t.target())));
+        })
         .add_systems(
             Last,
             (
@@ -219,17 +235,31 @@ fn run_case(seed: u64) -> Case {
                         _ => (SendMode::BroadcastExcept(Entity::from_raw(9999)), true),
                     };
                     let target = if rng.below(2) == 0 { Some(targets[rng.below(3)]) } else { None };
-                    let kind = if rng.below(2) == 0 {
-                        app.world_mut().send_event(ToClients { mode, event: SEv(seq) });
-                        "SEv"
-                    } else {
-                        match target {
-                            Some(t) => app.world_mut().server_trigger_targets(ToClients { mode, event: STrig(seq) }, t),
-                            None => app.world_mut().server_trigger(ToClients { mode, event: STrig(seq) }),
+                    let kind = match rng.below(4) {
+                        0 => {
+                            app.world_mut().send_event(ToClients { mode, event: SEv(seq) });
+                            "SEv"
                         }
-                        "STrig"
+                        1 => {
+                            app.world_mut().send_event(ToClients { mode, event: SInd(seq) });
+                            "SInd"
+                        }
+                        2 => {
+                            match target {
+                                Some(t) => app.world_mut().server_trigger_targets(ToClients { mode, event: SIndT(seq) }, t),
+                                None => app.world_mut().server_trigger(ToClients { mode, event: SIndT(seq) }),
+                            }
+                            "SIndT"
+                        }
+                        _ => {
+                            match target {
+                                Some(t) => app.world_mut().server_trigger_targets(ToClients { mode, event: STrig(seq) }, t),
+                                None => app.world_mut().server_trigger(ToClients { mode, event: STrig(seq) }),
+                            }
+                            "STrig"
+                        }
                     };
-                    pending_s.push((kind, seq, local, if kind == "STrig" { target } else { None }));
+                    pending_s.push((kind, seq, local, if kind == "STrig" || kind == "SIndT" { target } else { None }));
                     case.log.push(format!("emit server-direction {kind} seq={seq} mode={mode:?} target={target:?}"));
                 }
                 _ => {
@@ -294,6 +324,11 @@ fn run_case(seed: u64) -> Case {
                     if !running && !sent.is_empty() {
                         case.errs.push(format!("server put {} message(s) on the network while stopped", sent.len()));
                     }
+                    // the local server is not a network peer: what is meant for it is re-emitted locally only
+                    let for_local = sent.iter().filter(|(e, _, _)| *e == SERVER).count();
+                    if for_local != 0 {
+                        case.errs.push(format!("{for_local} message(s) addressed to the local server (SERVER) were put on the network in addition to the local re-emission"));
+                    }
                     let urecs = std::mem::take(&mut app.world_mut().resource_mut::<UpdateLog>().0);
                     for (kind, s) in urecs {
                         if let Some(e) = expect.get_mut(&s) {
@@ -320,7 +355,7 @@ fn run_case(seed: u64) -> Case {
                         if (kind == "CEv" || kind == "CTrig") && sender != Some(SERVER) {
                             case.errs.push(format!("{kind} seq {s} observed locally with sender {sender:?} instead of the local-server identity"));
                         }
-                        if (kind == "CTrig" || kind == "STrig") && e.target.is_some() && e.target != target {
+                        if (kind == "CTrig" || kind == "STrig" || kind == "SIndT") && e.target.is_some() && e.target != target {
                             case.errs.push(format!("{kind} seq {s} observed with target {target:?}, emitted for {:?}", e.target));
                         }
                     }
